@@ -380,8 +380,11 @@ def generate_and_run(a: AdaptSys, rng: np.random.Generator, stats: Stats) -> Tup
             emit(["reset", None])
         else:
             emit(["reset", int(rng.integers(0, 2**31 - 1))])
-        n = int(rng.integers(8, 40))
-        fault_p = float(rng.choice([0.0, 0.03, 0.1]))
+        # a third of the runs is long and purposeful (the environment's completion-driving policy reads the shadow state): late
+        # and rarely reached states - a finished instance, the far side of a maze - have observations of their own to relay
+        deep = bool(rng.random() < 0.33)
+        n = int(rng.integers(30, 70)) if deep else int(rng.integers(8, 40))
+        fault_p = 0.0 if deep else float(rng.choice([0.0, 0.03, 0.1]))
         for _ in range(n):
             if run.done:
                 emit(["reset", None if a.kind != "m2s" else int(rng.integers(0, 2**31 - 1))])
@@ -397,7 +400,16 @@ def generate_and_run(a: AdaptSys, rng: np.random.Generator, stats: Stats) -> Tup
                 else:
                     emit(["reset", None if a.kind != "m2s" else int(rng.integers(0, 2**31 - 1))])
                 continue
-            if rng.random() < 0.3:
+            act = None
+            if deep and rng.random() < 0.9:
+                try:
+                    m = a.adapter.env_mask(run.obs_np) if a.adapter.mask_mode else None
+                    act = a.adapter.policy_complete(util.to_np(run.state), a.base, rng, m if (m is None or m.any()) else None)
+                except Exception:  # noqa: BLE001  (a policy that cannot cope with this state: fall back)
+                    act = None
+            if act is not None:
+                emit(["step", act])
+            elif rng.random() < 0.3:
                 emit(["step", f"sample:{int(rng.integers(0, 100000))}"])
             else:
                 emit(["step", legal_action_from_obs(a.adapter, a.base, run.obs_np, rng)])
